@@ -72,6 +72,11 @@ CHECKS["C12"] = ("exploration",
   "60,000 (600,000) generated (query, data) pairs, depth 3 (4). The reference executor implements the documented naming rule, nested-loop order, null padding and nullability, and says which queries must be rejected.",
   "Trusted: the reference executor and evaluator. Queries that refer to a duplicated column name (plain self-joins) are skipped: resolution is undocumented.",
   "DESIGN.md section 4, C12 and Appendix B")
+CHECKS["C06"] = ("exploration",
+  "proptest-generated column lists over every builder option (70 % coerced into the representable core, 30 % free); round-trip oracle through save/reopen plus differential decoding of _Columns/_Validation with the independent decoder; positive clause for the representable core",
+  "30,000 (300,000) generated table definitions of 1..32 columns, all three close modes.",
+  "Trusted: the independent decoder; the representable-core predicate (in_core) only says what must be accepted, refusal is never demanded outside the clearly unrepresentable set.",
+  "DESIGN.md section 4, C06")
 NOT_YET = {}
 
 def main():
